@@ -24,6 +24,7 @@ Definition x_cs_ops (ops : list cop) := cs_show cfg (crun cfg ops).
 Definition x_cs_text (v : bytes) := cs_parse_show cfg v.
 Definition x_pt_from_str (s : bytes) := pt_from_str cfg s.
 Definition x_comb := comb_case cfg.
+Definition x_comb_purl := comb_purl cfg.
 Definition x_fam_parse := fam_parse cfg.
 Definition x_fam_build := fam_build cfg.
 Definition x_fam_canon c r hks (t : bytes) (p : parts) := canon_of cfg (fam_shape cfg c r hks) t p.
@@ -36,4 +37,4 @@ Definition x_byte_to_N := Byte.to_N.
 Definition x_valid_type (s : bytes) := valid_type cfg s.
 
 Extraction "model.ml" x_parse_g x_parse_t x_build_g x_build_b x_build_t x_cmp_g x_cmp_t x_qrun x_from_iter
-  x_cs_ops x_cs_text x_pt_from_str x_comb x_fam_parse x_fam_build x_fam_canon x_format_g x_format_t x_pt_name x_all_ptypes x_byte_to_N x_valid_type.
+  x_cs_ops x_cs_text x_pt_from_str x_comb x_comb_purl x_fam_parse x_fam_build x_fam_canon x_format_g x_format_t x_pt_name x_all_ptypes x_byte_to_N x_valid_type.
